@@ -4,7 +4,7 @@ import build, tlc, traces, ipcnames
 from core import Machinery, run_driver
 import sock as socklib
 
-WRAPS = ["clock_nanosleep", "nanosleep", "sem_wait", "sem_open", "shm_open"]
+WRAPS = ["clock_nanosleep", "nanosleep", "sem_wait", "sem_open", "shm_open", "close"]
 
 
 def run(ctx):
@@ -30,6 +30,10 @@ def run(ctx):
             scripts.append(("inject-semcreate-%d-%d" % (pos, k), ["semnew 1", pl("sem_open"), "semcreate 2", "units 2", "acquire", "release", "semfree"]))
             scripts.append(("inject-shmopen-%d-%d" % (pos, k), ["shmnew 64", pl("shm_open"), "shmopen 64", "units 1", "shmlock", "shmunlock", "shmfree"]))
             scripts.append(("inject-shmopen-sem-%d-%d" % (pos, k), ["shmnew 64", pl("sem_open"), "shmopen 64", "units 1", "shmlock", "shmunlock", "shmfree"]))
+    # an interrupted close (the descriptor is released before the interruption is reported, and the handler that ran opened a file which got
+    # that number): the library call succeeds as before and the handler's descriptor stays open - close is not issued again
+    scripts.append(("inject-close-shm", ["plan close:EINTR", "shmnew 64", "units 1", "shmlock", "shmunlock", "plan close:EINTR", "shmopen 64", "shmfree"]))
+    scripts.append(("inject-close-shm-2", ["shmnew 200", "plan close:EINTR", "shmopen 200", "units 1", "shmlock", "shmunlock", "shmfree"]))
     # (a) real signals: timer storms with a handler installed without SA_RESTART
     for period in ([300, 2000, 20000] if ctx.quick else [200, 300, 500, 700, 1000, 1500, 3000, 5000, 10000, 20000, 50000] * 3):
         scripts.append(("storm-sleep-%d" % period, ["storm %d" % period, "sleep 60", "sleep 5", "sleep 130", "storm 0"]))
